@@ -139,7 +139,7 @@ def run(tier):
         c = [it for it in items if any(e["e"] == kind for e in it[1])]
         return min(c, key=lambda it: len(it[1]))[1] if c else None
     muts = {"MetaBlockLargerThanContent": ("MetaBlock", lambda e: e.update(stored=e["usize"] + 1, compressed=True)),
-            "CompressedNotSmaller": ("DataBlock", lambda e: e.update(compressed=True, stored=e["usize"], sparse=False, expands_ok=True)),
+            "CompressedLarger": ("DataBlock", lambda e: e.update(compressed=True, stored=e["usize"] + 1, usize=e["usize"], sparse=False, expands_ok=True)),
             "ListingNotSorted": ("DirEnt", lambda e: e.update(gt_prev=False)),
             "HeaderRun257": ("DirHeader", lambda e: e.update(count=257)),
             "InodeNumberOutOfRange": ("Inode", lambda e: e.update(num=10 ** 6)),
